@@ -3,7 +3,7 @@ import os, re, tempfile
 from lib import script, common
 from lib.common import Broken
 
-THEOREMS = ["C18_transparent", "C18_transparent_histories", "C18_no_logger_no_lines", "C18_one_line"]
+THEOREMS = ["C18_transparent", "C18_transparent_histories", "C18_no_logger_no_lines", "C18_one_line", "C18_replay", "C18_replay_commands"]
 STRIPL = re.compile(r" (L|RP|ALTERED)=\S+")
 
 
